@@ -169,7 +169,9 @@ def script_strategy(version, all_metrics, order, complete=None):
     allvals = sorted(set(v for vals in V.table.values() for v in vals))
 
     def spell(v):
-        return st.sampled_from([v, v.lower(), v.upper(), v.title(), v.swapcase(), " " + v, v + " ", "\t" + v.lower() + "  "])
+        # str.strip() removes ALL white space: vertical tab, form feed, the \\x1c-\\x1f separators, NEL, CR, Unicode spaces
+        return st.sampled_from([v, v.lower(), v.upper(), v.title(), v.swapcase(), " " + v, v + " ", "\t" + v.lower() + "  ",
+                                v + "\r", "\x0b" + v, v + "\x0c", "\x1c" + v + "\x1f", v.lower() + "\x85", "\u2003" + v, v + "\u2028"])
 
     @st.composite
     def s(draw):
